@@ -50,6 +50,7 @@ structure AllSound (n : Nat) : Prop where
   resolveTS : ∀ cfg tsName ts i, MembersGood cfg tsName ts → SpecU cfg (resolveTS n cfg tsName ts i)
   dLoadEntry : ∀ cfg name, SpecE cfg name (dLoadEntry n cfg name)
   dFind : ∀ cfg name, SpecE cfg name (dFind n cfg name)
+  dMembers : ∀ cfg name, SpecE cfg name (dMembers n cfg name)
   dLoop : ∀ cfg mods name, SpecE cfg name (dLoop n cfg mods name)
 
 theorem inv_put {cfg : Cfg} {s : St} (h : Inv cfg s) (l : Lid) (k : Key) (e : Entry)
@@ -133,11 +134,15 @@ theorem step_fbLoadEntry {n : Nat} (ih : AllSound n) (cfg : Cfg) (l : Lid) (name
   intro s hs
   simp only [fbLoadEntry, wp_bind]
   have h1 : wp (match l with
-      | .m _ => fbLoadEntry n cfg .g name
+      | .m _ => if cfg.flat then pure (sysLoad name) else fbLoadEntry n cfg .g name
       | _ => pure (sysLoad name))
       (fun r s' => Inv cfg s' ∧ PostE cfg name r) (Inv cfg) s := by
     cases l with
-    | m mod => exact ih.fbLoadEntry cfg .g name s hs
+    | m mod =>
+      simp only []
+      by_cases hf : cfg.flat = true
+      · rw [if_pos hf]; exact ⟨hs, sysLoad_good cfg name⟩
+      · rw [if_neg hf]; exact ih.fbLoadEntry cfg .g name s hs
     | g => exact ⟨hs, sysLoad_good cfg name⟩
     | d => exact ⟨hs, sysLoad_good cfg name⟩
   refine wp_mono h1 ?_ (fun _ h => h)
@@ -435,13 +440,28 @@ theorem step_dFind {n : Nat} (ih : AllSound n) (cfg : Cfg) (name : Name) :
     | some ps =>
       simp only []
       cases hh : ps.head? with
-      | none => exact ih.dLoop cfg cfg.mods name s hs
+      | none => exact ih.dMembers cfg name s hs
       | some h =>
         simp only []
         by_cases hm : cfg.mods.contains h = true
         · rw [if_pos hm]; exact ih.fbLoadEntry cfg (.m h) name s hs
-        · rw [if_neg hm]; exact ih.dLoop cfg cfg.mods name s hs
-  · rw [if_neg hc]; exact ih.dLoop cfg cfg.mods name s hs
+        · rw [if_neg hm]; exact ih.dMembers cfg name s hs
+  · rw [if_neg hc]; exact ih.dMembers cfg name s hs
+
+theorem step_dMembers {n : Nat} (ih : AllSound n) (cfg : Cfg) (name : Name) :
+    SpecE cfg name (dMembers (n+1) cfg name) := by
+  intro s hs
+  simp only [dMembers]
+  by_cases hf : cfg.flat = true
+  · rw [if_pos hf]
+    simp only [wp_bind]
+    refine wp_mono (ih.fbLoadEntry cfg .g name s hs) ?_ (fun _ h => h)
+    intro e s1 ⟨hs1, he⟩
+    match e, he with
+    | some (some d), he => exact ⟨hs1, he⟩
+    | some none, _ => exact ih.dLoop cfg cfg.mods name s1 hs1
+    | none, _ => exact ih.dLoop cfg cfg.mods name s1 hs1
+  · rw [if_neg hf]; exact ih.dLoop cfg cfg.mods name s hs
 
 theorem step_dLoadEntry {n : Nat} (ih : AllSound n) (cfg : Cfg) (name : Name) :
     SpecE cfg name (dLoadEntry (n+1) cfg name) := by
@@ -486,7 +506,7 @@ theorem allSound : ∀ n, AllSound n
   | 0 => by
     constructor <;> intros <;> intro s hs <;>
       simp only [loadEntry, fbLoadEntry, find, findTail, parentSearch, instantiate, instantiator, addTypes, resolveTS,
-        dLoadEntry, dFind, dLoop, wp_raise] <;> exact hs
+        dLoadEntry, dFind, dMembers, dLoop, wp_raise] <;> exact hs
   | n+1 =>
     have ih := allSound n
     { loadEntry := step_loadEntry ih
@@ -500,6 +520,7 @@ theorem allSound : ∀ n, AllSound n
       resolveTS := step_resolveTS ih
       dLoadEntry := step_dLoadEntry ih
       dFind := step_dFind ih
+      dMembers := step_dMembers ih
       dLoop := step_dLoop ih }
 
 theorem sound_load (fuel : Nat) (cfg : Cfg) (name : Name) (s : St) (hs : Inv cfg s) :
